@@ -13,7 +13,7 @@
    (theorem C08_open_findings_are_refutations shows every listed deviation is real, so nothing is excluded that holds
    by accident of the list).  Part 2 is over the assignment model (Assign.v), for all states and programs. *)
 From Coq Require Import List String Bool Arith ZArith.
-From Miller Require Import C08.Model C08.Proofs C08.TableProofs gen.Gen_Dispositions C08.Assign C08.AssignProofs C08.Harness.
+From Miller Require Import C08.Model C08.Proofs C08.TableProofs gen.Gen_Dispositions C08.Assign C08.AssignProofs C08.Accumulate C08.Harness.
 Import ListNotations.
 Local Open Scope string_scope.
 
@@ -199,6 +199,16 @@ Theorem C08_map_literal_holds_no_absent :
 Proof. exact maplit_no_absent. Qed.
 Print Assumptions C08_map_literal_holds_no_absent.
 
+(* `@sum[$a] += $x` over a stream of ANY length, started from an unset @sum: the run succeeds and, for every key s,
+   @sum[s] is the first-principles total of $x over the records having $a = s and an $x (records lacking either field
+   are ignored), and is unset when no record contributes.  rec_ok: $a, when present, is a string and $x, when present,
+   an int (int overflow is C07's subject: the model adds in Z). *)
+Theorem C08_accumulation_from_unset_variable :
+  forall recs o e, Forall rec_ok recs -> get "sum" o = None ->
+    exists o', stream o e [accumulate] recs = Some o' /\ forall s, lookup_sum o' s = total s recs.
+Proof. exact accumulate_from_unset. Qed.
+Print Assumptions C08_accumulation_from_unset_variable.
+
 (* the `+` of the assignment model is the `+` of the regenerated table, at kind level, on the listed sample values *)
 Theorem C08_model_plus_matches_table :
   forall a b, In a plus_samples -> In b plus_samples -> plus_agrees a b = true.
@@ -218,5 +228,11 @@ Example C08_nonvacuous :
       /\ exec st (SAssign (LField "new" []) (EField "x")) = Ok (mkstate [("x", VInt 3); ("new", VInt 3)] [] [] [])
       /\ exec st (SAssign (LOosvar "sum" [ELit (VStr "k")]) (EPlus (EIndex (EOosvar "sum") (ELit (VStr "k"))) (EField "x")))
          = Ok (mkstate [("x", VInt 3)] [("sum", VMap [("k", VInt 3)])] [] [])
-      /\ direct_indexed (LOosvar "sum" [EField "nosuch"]) = true).
-Proof. vm_compute. repeat split; try reflexivity; try (apply Nat.leb_le; reflexivity); discriminate. Qed.
+      /\ direct_indexed (LOosvar "sum" [EField "nosuch"]) = true)
+  /\ (let recs := [[("a", VStr "p"); ("x", VInt 7)]; [("a", VStr "q")]; [("x", VInt 5)]; [("a", VStr "p"); ("x", VInt 9)]] in
+      rec_ok (hd [] recs) /\ total "p" recs = Some 16%Z /\ total "q" recs = None
+      /\ stream [] [] [accumulate] recs = Some [("sum", VMap [("p", VInt 16)])]).
+Proof.
+  vm_compute. repeat split; try reflexivity; try (apply Nat.leb_le; reflexivity); try discriminate;
+    try (right; eexists; reflexivity).
+Qed.
